@@ -18,6 +18,7 @@ TECH = {
     "C04": "payload provenance dataflow (own error object reaches sink_error on every path), structural recovery recognition, who-originates-errors rule",
     "C05": "ordering/typestate rule on Observer::unsubscribe (MIR paths + slot interpreter), gate dominance",
     "C06": "pairing rule on all paths (upstream_abort_observe before early sink_complete), finalize shape and must-pass-through rules",
+    "C07": "lock-effect analysis: guard liveness dataflow on MIR x user-reachability over the resolved call graph x cell-instance identity (re-entrancy self-deadlock), leaf-lock rule, loop-poll rule",
     "C14": "capture/ownership analysis: interior-mutable leaves of every upvar type of every Observable::create closure",
 }
 NOTE = ("Decides necessary structural conditions on the MIR of /repo's current tree (all paths of every matching site); "
